@@ -284,8 +284,13 @@ def check_handler_calls(ctx):
                    and x.args and isinstance(x.args[0], ast.List) and len(x.args[0].elts) == 2]
             tgt = st.targets[0].id if isinstance(st, ast.Assign) and isinstance(st.targets[0], ast.Name) else None
             okc = any(tgt in [U(e) for e in x.args[0].elts] and view.dominates(st, view.stmt_of(x)) for x in cat)
+            # ... unconditionally once they were generated: the concat runs exactly when the handler ran
+            if okc:
+                xs = [x for x in cat if tgt in [U(e) for e in x.args[0].elts]]
+                okc = Universe().equivalent(conds.of(view.stmt_of(xs[0])), conds.of(st)) is None
             ctx.check('R-MISS/handler-call', g, 'concat', okc,
-                      'the missing-value pairs are not concatenated to the result', c, sample='pd.concat([result, missing])')
+                      'the missing-value pairs are not concatenated to the result whenever they were generated (e.g. only when '
+                      'the result over present values is non-empty)', c, sample='pd.concat([result, missing]) iff allow_missing')
     ctx.floor('R-MISS/handler-call', n, 10, 'handler call sites')
 
 
